@@ -1,4 +1,5 @@
-//! C25: coroutine-local storage. ops over coroutines 0..2 and keys 0..3:
+//! C25: coroutine-local storage. ops over coroutines 0..2 and keys 0..7 (names of different lengths and orders,
+//! one a prefix of another, one empty):
 //!   put <c> <k> | get <c> <k> | gms <c> <k> | rm <c> <k> | drop <c>      (value ids = index of the op)
 //! outs: put → prev id|none ; get → id|none ; gms → ok|none ; rm → id|none ; drop → - ;
 //!   a final `end` op (appended by the generator) drops every coroutine and prints `drops=<id:count,…>`
@@ -12,7 +13,8 @@ pub fn gen(r: &mut Rng, thorough: bool) -> String {
     let n = if thorough { r.range(3, 60) } else { r.range(2, 20) };
     let mut ops = Vec::new();
     for _ in 0..n {
-        let (c, k) = (r.below(3), r.below(2));
+        // mostly few keys (collisions: overwrite, remove-then-get), sometimes many (storage with several live entries)
+        let (c, k) = (r.below(3), if r.chance(1, 2) { r.below(2) } else { r.below(8) });
         ops.push(match r.below(10) {
             0..=3 => format!("put {c} {k}"),
             4..=5 => format!("get {c} {k}"),
@@ -28,7 +30,7 @@ pub fn gen(r: &mut Rng, thorough: bool) -> String {
 struct Val { id: usize, drops: Arc<Vec<AtomicUsize>> }
 impl Drop for Val { fn drop(&mut self) { self.drops[self.id].fetch_add(1, Ordering::SeqCst); } }
 
-const KEYS: [&str; 4] = ["k0", "k1", "k2", "k3"];
+const KEYS: [&str; 8] = ["k0", "k1", "a", "zz", "k10", "B", "", "k2"];
 
 pub fn exec(body: &str, emit: &mut dyn FnMut(&str)) {
     let ops: Vec<&str> = body.split(" | ").collect();
